@@ -29,6 +29,8 @@ func init() {
 			ruleLockOrder(c, "C18.R4")
 			c.Rule("C18.R5", "policy tables exhaustive", 6)
 			rulePolicyDerivation(c, "C18.R5")
+			c.Rule("C18.R8", "policy rule slices are index-aligned with the spec (no out-of-range in the pod event path)", 4)
+			rulePolicyRuleIndexAlignment(c, "C18.R8")
 			c.Rule("C18.R7", "pointers decoded from the floating-IP configuration are nil-tested before use", 3)
 			ruleDecodedPointers(c, "C18.R7")
 			c.Rule("C18.R6", "paging parameters clamped to a constant range", 2)
